@@ -12,6 +12,10 @@ REQ = {
  'ExitGrl': 'thisListener.Grl != nil',
 }
 EXTRA = {
+ 'ExitRuleEntry': ['// C17: the entry is filed under the name the text declares; a second rule of that name is an error, never a silent overwrite',
+   '//@   ensures[C17] named: !old(thisListener.StopParse) && old(thisListener.Stack.length) > 0 && old(thisListener.Stack.top.value) != nil && typeof(old(thisListener.Stack.top.value)) == typeid(*ast.RuleEntry) && antlr_RuleName(ctx) != nil ==> as(old(thisListener.Stack.top.value), *ast.RuleEntry).RuleName == antlr_GetText(antlr_RuleName(ctx))',
+   '//@   ensures[C17] filed: !old(thisListener.StopParse) && old(thisListener.Stack.length) > 0 && old(thisListener.Stack.top.value) != nil && typeof(old(thisListener.Stack.top.value)) == typeid(*ast.RuleEntry) && old(thisListener.Stack.length) >= 2 && old(thisListener.Stack.top.prev.value) == thisListener.Grl && thisListener.Grl != nil && typeof(thisListener.Grl) == typeid(*ast.Grl) && old(thisListener.Grl.RuleEntries) != nil ==> len(thisListener.ErrorCallback.Errors) > old(len(thisListener.ErrorCallback.Errors)) || (has(thisListener.Grl.RuleEntries, as(old(thisListener.Stack.top.value), *ast.RuleEntry).RuleName) && thisListener.Grl.RuleEntries[as(old(thisListener.Stack.top.value), *ast.RuleEntry).RuleName] == as(old(thisListener.Stack.top.value), *ast.RuleEntry))',
+   '//@   ensures[C17] nooverwrite: !old(thisListener.StopParse) && old(thisListener.Stack.length) > 0 && old(thisListener.Stack.top.value) != nil && typeof(old(thisListener.Stack.top.value)) == typeid(*ast.RuleEntry) && old(thisListener.Stack.length) >= 2 && old(thisListener.Stack.top.prev.value) == thisListener.Grl && thisListener.Grl != nil && typeof(thisListener.Grl) == typeid(*ast.Grl) && old(thisListener.Grl.RuleEntries) != nil ==> forall k string :: old(has(thisListener.Grl.RuleEntries, k)) ==> has(thisListener.Grl.RuleEntries, k) && thisListener.Grl.RuleEntries[k] == old(thisListener.Grl.RuleEntries[k])'],
  'EnterMulDivOperators': ['// C05: the documented operator table - which token text selects which operator of the expression being built', '//@   ensures[C05,C17] optable: !old(thisListener.StopParse) && old(thisListener.Stack.length) > 0 && old(thisListener.Stack.top.value) != nil && typeof(old(thisListener.Stack.top.value)) == typeid(*ast.Expression) ==> (antlr_GetText(ctx) == "*" ==> as(old(thisListener.Stack.top.value), *ast.Expression).Operator == ast.OpMul) && (antlr_GetText(ctx) == "/" ==> as(old(thisListener.Stack.top.value), *ast.Expression).Operator == ast.OpDiv) && (antlr_GetText(ctx) == "%" ==> as(old(thisListener.Stack.top.value), *ast.Expression).Operator == ast.OpMod)'],
  'EnterAddMinusOperators': ['// C05: the documented operator table - which token text selects which operator of the expression being built', '//@   ensures[C05,C17] optable: !old(thisListener.StopParse) && old(thisListener.Stack.length) > 0 && old(thisListener.Stack.top.value) != nil && typeof(old(thisListener.Stack.top.value)) == typeid(*ast.Expression) ==> (antlr_GetText(ctx) == "+" ==> as(old(thisListener.Stack.top.value), *ast.Expression).Operator == ast.OpAdd) && (antlr_GetText(ctx) == "-" ==> as(old(thisListener.Stack.top.value), *ast.Expression).Operator == ast.OpSub) && (antlr_GetText(ctx) == "|" ==> as(old(thisListener.Stack.top.value), *ast.Expression).Operator == ast.OpBitOr) && (antlr_GetText(ctx) == "&" ==> as(old(thisListener.Stack.top.value), *ast.Expression).Operator == ast.OpBitAnd)'],
  'EnterComparisonOperator': ['// C05: the documented operator table - which token text selects which operator of the expression being built', '//@   ensures[C05,C17] optable: !old(thisListener.StopParse) && old(thisListener.Stack.length) > 0 && old(thisListener.Stack.top.value) != nil && typeof(old(thisListener.Stack.top.value)) == typeid(*ast.Expression) ==> (antlr_GetText(ctx) == "<" ==> as(old(thisListener.Stack.top.value), *ast.Expression).Operator == ast.OpLT) && (antlr_GetText(ctx) == "<=" ==> as(old(thisListener.Stack.top.value), *ast.Expression).Operator == ast.OpLTE) && (antlr_GetText(ctx) == ">" ==> as(old(thisListener.Stack.top.value), *ast.Expression).Operator == ast.OpGT) && (antlr_GetText(ctx) == ">=" ==> as(old(thisListener.Stack.top.value), *ast.Expression).Operator == ast.OpGTE) && (antlr_GetText(ctx) == "==" ==> as(old(thisListener.Stack.top.value), *ast.Expression).Operator == ast.OpEq) && (antlr_GetText(ctx) == "!=" ==> as(old(thisListener.Stack.top.value), *ast.Expression).Operator == ast.OpNEq)'],
@@ -22,7 +26,8 @@ EXTRA = {
              '//@   invariant@1 grlkept: forall k string :: has(thisListener.Grl.RuleEntries, k) == old(has(thisListener.Grl.RuleEntries, k)) && thisListener.Grl.RuleEntries[k] == old(thisListener.Grl.RuleEntries[k])',
              '//@   invariant@1 errorskept: errorsKept(thisListener)',
              '//@   invariant@1 sticky: old(thisListener.StopParse) ==> thisListener.StopParse'],
- 'ExitIntegerLiteral': ['//@   ensures[C05,C17] literalkind: fnok_ParseInt(antlr_GetText(ctx), 0, 64) && old(thisListener.Stack.length) > 0 && old(thisListener.Stack.top.value) != nil && typeof(old(thisListener.Stack.top.value)) == typeid(*ast.Constant) ==> as(old(thisListener.Stack.top.value), *ast.Constant).Value.kind == 6',
+ 'ExitIntegerLiteral': ['//@   ensures[C17] saliencevalue: fnok_ParseInt(antlr_GetText(ctx), 0, 64) && old(thisListener.Stack.length) > 0 && old(thisListener.Stack.top.value) != nil && typeof(old(thisListener.Stack.top.value)) == typeid(*ast.Salience) && fn_ParseInt_0(antlr_GetText(ctx), 0, 64) >= -2147483648 && fn_ParseInt_0(antlr_GetText(ctx), 0, 64) <= 2147483647 ==> as(old(thisListener.Stack.top.value), *ast.Salience).SalienceValue == fn_ParseInt_0(antlr_GetText(ctx), 0, 64)',
+   '//@   ensures[C05,C17] literalkind: fnok_ParseInt(antlr_GetText(ctx), 0, 64) && old(thisListener.Stack.length) > 0 && old(thisListener.Stack.top.value) != nil && typeof(old(thisListener.Stack.top.value)) == typeid(*ast.Constant) ==> as(old(thisListener.Stack.top.value), *ast.Constant).Value.kind == 6',
    '//@   ensures[C17,C20] literalerr: !fnok_ParseInt(antlr_GetText(ctx), 0, 64) ==> thisListener.StopParse && len(thisListener.ErrorCallback.Errors) > old(len(thisListener.ErrorCallback.Errors))'],
  'ExitBooleanLiteral': ['//@   ensures[C05,C17] literalvalue: old(thisListener.Stack.length) > 0 && old(thisListener.Stack.top.value) != nil && typeof(old(thisListener.Stack.top.value)) == typeid(*ast.Constant) && !old(thisListener.StopParse) ==> as(old(thisListener.Stack.top.value), *ast.Constant).Value.kind == 1 && as(old(thisListener.Stack.top.value), *ast.Constant).Value.b == (str_lower(antlr_GetText(ctx)) == "true")'],
  'ExitFloatLiteral': ['//@   ensures[C05,C17] literalvalue: fnok_ParseFloat(antlr_GetText(ctx), 64) && old(thisListener.Stack.length) > 0 && old(thisListener.Stack.top.value) != nil && typeof(old(thisListener.Stack.top.value)) == typeid(*ast.Constant) ==> as(old(thisListener.Stack.top.value), *ast.Constant).Value.kind == 14 && as(old(thisListener.Stack.top.value), *ast.Constant).Value.f == fn_ParseFloat_0(antlr_GetText(ctx), 64)',
